@@ -123,6 +123,36 @@ def rules():
     ok = [(['-a', '-b'], [], ['a=1', 'b=1']), (['-b', '-n', S(0), '-a'], ['d2'], ['a=1', 'b=1', 'n=#0']), (['-ba'], [], ['a=1', 'b=1'])]
     bad = [([], [], []), (['-a'], [], []), (['-b', '-n', S(0)], ['d2'], []), (['-n', S(0)], ['d2'], [])]
     fam.append((7, ok, bad))
+    # cfg 8: handler constraints named by long/short keys, arguments spelled short / long / abbreviated
+    INP = [['-i', S(0)], ['--input', S(0)], ['--inp=' + S(0)], ['--in', S(0)]]
+    OUT = [['-o', S(1)], ['--output=' + S(1)], ['--out', S(1)], ['--ou=' + S(1)]]
+    AL = [['-a'], ['--alpha'], ['--al']]; BE = [['-b'], ['--beta'], ['--be']]; PR = [['-p'], ['--print'], ['--pri']]; QU = [['-q'], ['--quiet'], ['--qui']]
+    ok = []; bad = []
+    for i in INP:
+        for a in AL[:2]:
+            for b in BE[1:]:
+                ok.append((i + a + b, ['d2'], ['n=#0', 'a=1', 'b=1']))
+        bad.append((i, ['d2'], []))                                   # all_of(alpha;b) not met
+        for o in OUT:
+            bad.append((i + o + ['-a', '-b'], ['d2', 'd2'], []))      # one_of: both used
+            bad.append((o + ['--alpha', '--beta'] + i, ['d2', 'd2'], []))
+    for o in OUT:
+        for a in AL:
+            ok.append((a + o + ['-b'], ['d2', 'd2'], ['m=#1', 'a=1', 'b=1']))
+            bad.append((a + o, ['d2', 'd2'], []))
+    for p in PR:
+        ok.append((['-i', S(0), '-ab'] + p, ['d2'], ['n=#0', 'p=1']))
+        for q in QU:
+            bad.append((['-i', S(0), '-ab'] + p + q, ['d2'], []))     # any_of: both used
+            bad.append((q + ['-i', S(0), '-ab'] + p, ['d2'], []))
+    bad.append((['-a', '-b'], [], []))                                # one_of: none used
+    fam.append((8, ok, bad))
+    # cfg 9: 'c' required by a, excluded by b; x requires c and a, excludes b
+    ok = [(['-a', '-c'], [], ['a=1', 'f=1']), (['-b'], [], ['b=1']), (['-c'], [], ['f=1']), (['-a', '-c', '-b'], [], ['a=1', 'b=1', 'f=1']), (['-c', '-b'], [], ['b=1', 'f=1']),
+          (['-x', '-a', '-c'], [], ['x=1', 'a=1', 'f=1']), (['-g', '--extra', '-a', '-c'], [], ['x=1', 'a=1', 'f=1', 'g=1']), (['-b', '-g'], [], ['b=1', 'g=1'])]
+    bad = [(['-a'], [], []), (['-a', '-b', '-c'], [], []), (['-b', '-a', '-c'], [], []), (['-b', '-a'], [], []), (['-b', '-c'], [], []), (['-a', '-b'], [], []), (['-x', '-c'], [], []), (['-x', '-a'], [], []),
+           (['-x', '-a', '-c', '-b'], [], []), (['--extra', '-c', '-a', '-b'], [], []), (['-a', '-x', '-b', '-c'], [], []), (['-x', '-c', '-a'], [], []), (['-b', '-x', '-a', '-c'], [], [])]
+    fam.append((9, ok, bad))
     # cfg 4: one_of(a;b)
     ok = [(['-a'], [], ['a=1']), (['-b'], [], ['b=1']), (['-n', S(0), '-b'], ['d2'], ['b=1', 'n=#0']), (['-a', '--number=' + S(0)], ['d2'], ['a=1', 'n=#0'])]
     bad = [([], [], []), (['-n', S(0)], ['d2'], []), (['-a', '-b'], [], []), (['-b', '-n', S(0), '-a'], ['d2'], [])]
@@ -201,7 +231,7 @@ def c05_shapes(tier):
                 shapes.append(('hx_pa_order', [perm, fl], lab('c05/p%d/f%d' % (perm, fl), [pre, '@0']), {'pa_tmpl': tmpl(exp[0], exp[1], ['d2'], [pre, S(0)])}))
             for pre in ('--i', '--in-'):      # ambiguous resp. unknown
                 shapes.append(('hx_pa_order', [perm, fl], lab('c05/p%d/f%d' % (perm, fl), [pre, '@0']), {'pa_tmpl': tmpl('throw', [], ['d2'], [pre, S(0)])}))
-    for mode in range(5):
+    for mode in range(11):
         shapes.append(('hx_pa_keys', [mode, 0], 'c05/keys/mode%d' % mode))
     return shapes
 
